@@ -581,6 +581,74 @@ def run_iter_representation(ctx):
             ctx.disagree('It.iter: representation of the elements of list(iter(t))', case, want, ' '.join(toks)[:600])
 
 
+def run_where_representation(ctx):
+    """the model `Wh.whereOp` of PatternedTensor.where (swap when c.default, anti-unification of c and u, u laid out over the fresh axes,
+    the selected cells overwritten with t's dense cells) predicts the REPRESENTATION of t.where(c, u) for operands of one shape"""
+    from .unifygen import canon
+    from .common import enc_ext
+    reqs, meta = [], []
+    for k in range(50 if ctx.quick else 1000):
+        nd = ctx.rng.choice([0, 1, 1, 2, 2, 3])
+        types = [ptgen.random_type(ctx.rng, depth=ctx.rng.choice([1, 2, 2]), sizes=[1, 2, 3, 2, 4]) for _ in range(nd)]
+        if math.prod(ty_numel(t) for t in types) > 200:
+            continue
+        t = random_pt(ctx.rng, types, defaults=[0.0, 1.0, -math.inf], specials=0.0)
+        u = random_pt(ctx.rng, types, defaults=[0.0, 2.0, 3.0], specials=0.0)
+        c = random_pt(ctx.rng, types, bool_=True)
+        if ctx.rng.random() < 0.15:
+            u = t if ctx.rng.random() < 0.5 else t.clone()
+        if any(k_._numel == 0 for x in (t, c, u) for k_ in x.paxes):
+            continue
+        ids = {}
+        def enc(p_, tag):
+            def key(k_):
+                return ids.setdefault((tag, id(k_)), len(ids))
+            from fggs.indices import ProductAxis as _X
+            def ea(e):
+                if isinstance(e, PhysicalAxis): return f'P {key(e)} {e._numel}'
+                if isinstance(e, _X): return 'X ' + enc_list(e.factors, ea)
+                return f'S {e.before} {ea(e.term)} {e.after}'
+            ph = p_.physical.to(torch.float64) if p_.physical.dtype == torch.bool else p_.physical
+            return (f'{enc_list(ph.contiguous().reshape(-1).tolist() if ph.numel() else [], enc_ext)} '
+                    f'{enc_list(p_.paxes, lambda k_: str(key(k_)) + " " + str(k_._numel))} {enc_list(p_.vaxes, ea)} {enc_ext(float(p_.default))}')
+        et, ec, eu = enc(t, 't'), enc(c, 'c'), enc(u, 'u')
+        case = dict(op='where', t=et, c=ec, u=eu)
+        try:
+            r = t.where(c, u)
+        except VerifInvariantError as e:
+            ctx.fail(f'where: the library constructed a PatternedTensor that violates the representation invariant: {e}', case, repr(e), None, tags=['invariant', 'where'])
+            continue
+        except Exception as e:  # noqa
+            ctx.fail(f'where raised {type(e).__name__}: {str(e)[:80]}', case, repr(e), None, tags=['raises', 'where', type(e).__name__])
+            continue
+        want_dense = torch.where(c.to_dense(), t.to_dense(), u.to_dense())
+        if not same_dense(r.to_dense(), want_dense, 0.0):
+            ctx.fail('where: result does not denote torch.where of the dense operands', case, r.to_dense().tolist(), want_dense.tolist(), tags=['value', 'where'])
+        ids2 = {}
+        from fggs.indices import ProductAxis as _X2
+        def ea2(e):
+            if isinstance(e, PhysicalAxis): return f'P {ids2.setdefault(id(e), len(ids2))} {e._numel}'
+            if isinstance(e, _X2): return 'X ' + enc_list(e.factors, ea2)
+            return f'S {e.before} {ea2(e.term)} {e.after}'
+        want = (f'{enc_list(r.physical.contiguous().reshape(-1).tolist() if r.physical.numel() else [], enc_ext)} '
+                f'{enc_list(r.paxes, lambda k_: "P " + str(ids2.setdefault(id(k_), len(ids2))) + " " + str(k_._numel))} {enc_list(r.vaxes, ea2)} {enc_ext(float(r.default))}')
+        reqs.append(f'C06.where {et} {ec} {eu} {len(ids) + 3}')
+        meta.append((case, want))
+        ctx.count('where-representation.' + ('c-default-true' if c.default else 'c-default-false'))
+    for (case, want), rep in zip(meta, ctx.driver.ask_many(reqs)):
+        if isinstance(rep, Exception):
+            raise rep
+        ctx.evaluations += 1
+        toks = rep.split()[1:]
+        i = 0; L = int(toks[i]); phys = toks[i + 1:i + 1 + L]; i += 1 + L
+        P = int(toks[i]); pax = toks[i + 1:i + 1 + 2 * P]; i += 1 + 2 * P
+        mp = [str(L)] + phys + [str(P)] + sum((['P', pax[2 * j], pax[2 * j + 1]] for j in range(P)), []) + toks[i:-1]
+        if canon(mp) != canon(want.split()):
+            ctx.disagree('Wh.whereOp: representation of the result', case, want, ' '.join(mp))
+        elif toks[-1] != 'T':
+            ctx.disagree('Wh.whereOp: the model\'s result is not well formed (PT.wf)', case, want, rep)
+
+
 def run_unit_factors(ctx, reqs, meta):
     """index types with a factor of ONE element that is not the unit axis (a one-component sum `0 + () + 0`, as patterned JSON
     weights can spell it) at the start, in the middle or at the END of a product, each operand representing the same type in its own
@@ -684,6 +752,7 @@ def run(ctx):
     run_shape_representation(ctx)
     run_stack_representation(ctx)
     run_iter_representation(ctx)
+    run_where_representation(ctx)
     reqs, meta = [], []
     run_unit_factors(ctx, reqs, meta)
     U, B = unary_ops(), binary_ops()
